@@ -189,13 +189,14 @@ def visitList : List (Node α) → List (Ev α)
   | [] => []
   | k :: ks => visit k ++ visitList ks
 
-/-- `visit_matching_pattern_bindings_as_uses` (404-426): ids are uses, nested or-patterns and
-wildcards contribute nothing. -/
+/-- `visit_matching_pattern_bindings_as_uses` (404-431): ids are uses; every other pattern form
+(tuple, struct, variant, nested or-pattern) visits its children the same way.
+(History: before fix a157fc5 a nested or-pattern contributed nothing, so `A(x) | B(C(x) | D(x))`
+left the inner `x`s unresolved — finding C15-F2.) -/
 def uses : Node α → List (Ev α)
   | .mk tag name loc kids =>
     match tag, name with
     | .pId, some n => [.use n loc false]
-    | .pOr, _ => []
     | _, _ => usesList kids
 
 def usesList : List (Node α) → List (Ev α)
